@@ -137,7 +137,7 @@ def run_property(prop, tier, seed, replay=None):
         except Exception as e:  # generator failure = the tie is broken
             violations.append(("gen_from_source failed", {"kind": "correspondence", "what": "tools/gen_from_source.py could not regenerate Crusta/Gen from /repo: %r" % (e,)}, True))
         # 2. proofs
-        rc, out = common.lake_build(["Crusta.Props.%s" % prop.id, "driver"] + ([common.WITNESS_MODULE] if prop.id in common.WITNESSES else []))
+        rc, out = common.lake_build(["Crusta.Props.%s" % prop.id, "driver"] + ([common.witness_module(prop.id)] if prop.id in common.WITNESSES else []))
         lean_ok = rc == 0
         if not lean_ok:
             errs = [l for l in out.splitlines() if l.startswith("error")][:8]
